@@ -5,10 +5,10 @@ V = os.path.dirname(os.path.dirname(os.path.abspath(__file__)))
 TECH = "bounded symbolic execution of the real Rust code (Kani 0.68 -> CBMC 6.11, CaDiCaL); solver verdict per harness, counterexamples replayed natively"
 CLAIMS = {
  # id: (level text, level note, design ref)
- "C01": ("Bounded model checking for absence of panics (unwrap/expect, arithmetic overflow, out-of-bounds, unreachable) and of unbounded loops (unwinding assertions) in every synchronous decode unit driven by arbitrary peer bytes: link sync/header/body steps and dispatch, assembler step with real buffer sizes, application fragment header, every object variation x qualifier container (parse and iterate), event-ledger counters.  Kani's implicit checks are the property; every harness of the families C06/C08/C09/C03 tagged C01 contributes.",
+ "C01": ("Bounded model checking for absence of panics (unwrap/expect, arithmetic overflow, out-of-bounds, unreachable) and of unbounded loops (unwinding assertions) in every synchronous decode unit driven by arbitrary peer bytes: link sync/header/body steps and dispatch, assembler step with real buffer sizes, application fragment header, every object variation x qualifier container (parse and iterate), event-ledger counters, the receive-buffer arithmetic, attribute values.  'Never spins' is decided for the link dispatch loops as an unwinding assertion (at most 4 iterations for 1-2 bytes; a failure there is a VIOLATION).  Kani's implicit checks are the property; every harness of the families C06/C08/C09/C03 tagged C01 contributes.",
          "Per-unit: liveness after the hostile input (keeps serving), socket chunking and everything in async session/task code is outside the claim; logging is stubbed (Display never evaluated).",
          "DESIGN.md §5 C01"),
- "C03": ("Bounded model checking of the event ledger on the real EventBuffer: after every operation of an operation-kind skeleton (insert x2 types, select, write, confirm-clear, reset; all data symbolic) counters equal ground truth recomputed from the list, release happens only by clear_written with exactly-once event_cleared(id), oldest-first, overflow discards the oldest of the same type and reports both ids.",
+ "C03": ("Bounded model checking of the event ledger on the real EventBuffer: after every operation of an operation-kind skeleton (insert x2 types, select, write, confirm-clear, reset; all data symbolic) counters equal ground truth recomputed from the list, release happens only by clear_written with exactly-once event_cleared(id), oldest-first, overflow discards the oldest of the same type and reports both ids; the shared list is sized for the sum of all per-type limits.",
          "Skeleton lengths <= 4 in the quick tier (<= 6 attempted in thorough), capacities 2+1, Event::write abstracted to fits/does-not-fit. Which session paths call reset/clear_written (async confirm waits) is outside the claim.",
          "DESIGN.md §5 C03"),
  "C05": ("Bounded model checking of repeat recognition on a real OutstationSession: classify says Repeat <=> same sequence AND same xxh64 of the fragment (real hash), READ/non-READ split, confirms never repeats, broadcast before everything; session reset forgets the last request.",
@@ -21,10 +21,10 @@ CLAIMS = {
          "Static/event writers' header logic (promote, CTO grouping) and the master's extraction loop are not composed into these queries.",
          "DESIGN.md §5 C10"),
  "C11": ("THIN. Bounded model checking of the static-data response writer (RangeWriter) only: points written at arbitrary ascending indices are reported once each, in order, contiguous runs sharing a header with a correctly patched stop field, bit-packed values LSB first; a point that does not fit leaves everything before it intact and signals the caller to resume in the next fragment.",
-         "The snapshot clause (selected vs current value), exactly-once across fragments and the resume index are decided in StaticDatabase, whose BTreeMap-backed code did not finish in three 40-minute formulations (attempt-only harnesses c11_snapshot_*); FIR/FIN/CON and the confirm gate are async. None of these is decided: exit 0 says nothing about them.",
+         "The snapshot clause (selected vs current value), exactly-once across fragments and the resume index are decided in StaticDatabase, whose BTreeMap-backed code did not finish in three 40-minute formulations nor with a single point in 16 GB (attempt-only harnesses c11_snapshot_*, c11_one_point_*); FIR/FIN/CON and the confirm gate are async. None of these is decided: exit 0 says nothing about them.",
          "DESIGN.md §5 C11, §12 walls"),
- "C12": ("Bounded model checking of the synchronous response builders on a real OutstationSession: sequence = request's, UNS clear, FIR/FIN, objects exactly as specified and bounded, every object parse error maps to a non-empty IIN2, per-header rejections OR-ed (ENABLE/DISABLE_UNSOLICITED), restart-bit write semantics.",
-         "The async dispatcher (which functions get no reply, WRITE's per-header loop, controls, wait states) is outside the claim; multi-header ENABLE/DISABLE cases only in the thorough tier (slow).",
+ "C12": ("Bounded model checking of the synchronous response builders on a real OutstationSession: sequence = request's, UNS clear, FIR/FIN, objects exactly as specified and bounded, every object parse error maps to a non-empty IIN2, ENABLE/DISABLE_UNSOLICITED refused when unsolicited reporting is switched off by configuration, restart-bit write semantics, transmit buffers sized from the right configuration field.",
+         "The async dispatcher (which functions get no reply, controls, wait states) is outside the claim.  Every handler that walks real object headers of a request on a session (ENABLE/DISABLE with headers, FREEZE, WRITE: 'each header processed, errors OR-ed') exceeded 28 GB and is attempt-only: exit 0 says nothing about those clauses.",
          "DESIGN.md §5 C12"),
  "C13": ("Bounded model checking of IIN truth: class bits/overflow vs ground truth after every event-buffer operation (shared with C03), get_response_iin bit mapping on a real session (restart, broadcast life-cycle for the three confirm modes, application bits), restart bit cleared only by WRITE g80v1[7]=0, not by reconnect.",
          "Timing of updates relative to a pending confirm is async and outside the claim.",
@@ -32,22 +32,22 @@ CLAIMS = {
  "C15": ("Bounded model checking of the master's acceptance predicates: response-header validation over all control/function/IIN octets (UNS <=> unsolicited function, unsolicited => FIR and FIN), duplicate-unsolicited detection (header + digest), reset forgets the last unsolicited fragment.",
          "Thin: sequence/source matching, multi-fragment rules and CONFIRM emission live in async fns of MasterSession and are NOT decided.",
          "DESIGN.md §5 C15"),
- "C16": ("Bounded model checking of the command echo comparison: for 1-2 commands per header (all fields symbolic), the reply being the faithful echo with optionally one byte XOR-ed by any mask and a count off by one: success <=> untouched echo and all statuses SUCCESS; header type mismatches rejected.",
+ "C16": ("Bounded model checking of the command echo comparison: for 1-2 commands per header (all fields symbolic), the reply being the faithful echo with optionally one byte XOR-ed by any mask and a count off by one: success <=> untouched echo and all statuses SUCCESS; header type mismatches rejected; request construction keeps every command added to a CommandBuilder (any pair of the ten type x index-width kinds).",
          "Exactly-one-outcome over failure points, promises and timeouts (async) are outside the claim; multi-header requests are covered only through the per-header comparison.",
          "DESIGN.md §5 C16"),
- "C17": ("Bounded model checking on a real Association: restart/need-time/overflow indications re-arm exactly the specified automatic tasks from any task state, reset re-arms start-up, back-off is min, doubling, capped at max as one inductive step (runs of any length), failure schedules now+delay.",
-         "The fixed priority order (TaskStates::next returns big task enums by value) and ordering across reconnects are not decided.",
+ "C17": ("Bounded model checking on a real Association: restart/need-time/overflow indications re-arm exactly the specified automatic tasks from any task state, reset re-arms start-up, back-off is min, doubling, capped at max as one inductive step (runs of any length), failure schedules now+delay; the fixed priority order of the six automatic tasks in TaskStates::next (which state is consulted first) for every combination of states, configuration and events-available bits.",
+         "Which Task object is built for the chosen step (create_next_task is replaced by a marking stub because the 104-byte task enum stalls CBMC) and ordering across reconnects are not decided.",
          "DESIGN.md §5 C17"),
- "C18": ("Bounded model checking of both halves of the time-sync arithmetic with symbolic clocks: outstation RECORD_CURRENT_TIME + WRITE g50v3 yields exactly T + elapsed or PARAMETER_ERROR on overflow/clock error; master propagation delay = (round trip - reported delay)/2 on the source expression, error = half the asymmetry; 48-bit overflow => failure; NEED_TIME still set => failure.",
+ "C18": ("Bounded model checking of both halves of the time-sync arithmetic with symbolic clocks: outstation RECORD_CURRENT_TIME + WRITE g50v3 yields exactly T + elapsed (elapsed since the MOST RECENT record) or PARAMETER_ERROR on overflow/clock error; master propagation delay = (round trip - reported delay)/2 on the source expression, error = half the asymmetry; 48-bit overflow => failure; NEED_TIME still set => failure.",
          "handle_delay_measure as a whole (response parsing + task enum by value) is attempted only in the thorough tier; unrelated interleaved traffic is outside.",
          "DESIGN.md §5 C18"),
- "C19": ("Bounded model checking of poll scheduling primitives: poll ready exactly from completion + period (or at once on demand), PollMap::next returns Now iff something is due and otherwise the earliest deadline strictly in the future (no spinning), keep-alive deadline = last activity + timeout.",
+ "C19": ("Bounded model checking of poll scheduling primitives: poll ready exactly from completion + period (or at once on demand), PollMap::next returns Now iff something is due and otherwise the earliest deadline strictly in the future (no spinning), keep-alive deadline = last activity + timeout; an idle association wakes at the earlier of its next poll and its keep-alive deadline.",
          "Thin: request-before-poll order, fairness between associations and one-outstanding-request are in the async run loop / big task enums and are NOT decided.",
          "DESIGN.md §5 C19"),
- "C20": ("Bounded model checking of the binding layer's conversions: every enum conversion impl with a like-named native enum (generated from both enum definitions) maps each variant to its namesake; measurement structs, flags, the three time qualities and event classes field-for-field.",
+ "C20": ("Bounded model checking of the binding layer's conversions: every enum conversion impl with a like-named native enum (generated from both enum definitions) maps each variant to its namesake; measurement structs, flags, the three time qualities, IIN bits, update options and event classes field-for-field, in both directions (binding -> native for the outstation database, native -> binding for the master's read handler).",
          "Conversions involving strings, errors collapsed to ParamError and raw-pointer database entry points are not covered.",
          "DESIGN.md §5 C20"),
- "C06": ("Bounded model checking of the link codec: table CRC step == bit-serial CRC-16/DNP for all 2^24 (acc,byte) pairs, GF(2)-linearity, header accept <=> length>=5 and reference CRC with fields decoded as transmitted, Hamming distance >= 4 of header and body blocks via syndromes built by the real CRC code, body de-framing for payload lengths 1..250 and format->parse round trips for 0..249 application bytes (checksum abstracted there), sync-search automaton and step atomicity in discard/close mode.",
+ "C06": ("Bounded model checking of the link codec: table CRC step == bit-serial CRC-16/DNP for all 2^24 (acc,byte) pairs, GF(2)-linearity, header accept <=> length>=5 and reference CRC with fields decoded as transmitted, Hamming distance >= 4 of header and body blocks via syndromes built by the real CRC code, body de-framing for payload lengths 1..250 and format->parse round trips for 0..249 application bytes (checksum abstracted there), sync-search automaton and step atomicity in discard/close mode, receive-buffer window arithmetic (shift/advance) for any begin/end.",
          "Induction over bytes (CRC) and over calls (chunk independence) are arguments, the steps are solver results. CRC abstracted by a cheap checksum inside the framing loops. Reader::read_frame (async), datagram-mode reset and resynchronisation inside an already-consumed header (state ReadBody) are outside the claim.",
          "DESIGN.md §5 C06"),
  "C07": ("Bounded model checking of link addressing: process_header for all 2^41 (control, destination, source) x roles x self-address x local address x secondary states incl. a retransmitted frame; broadcast FIR+FIN rule of the assembler; the foreign-master/broadcast filter of pop_request over every parse outcome.",
